@@ -238,4 +238,8 @@ def c05(a):
     return run('C05', 'exploration', a, 'exploration over instantiations (constant index patterns from structured families + VERIF_SEED random ones, every slide/rotate/insert/extract_pair count, every compress/expand mask up to 8 lanes); each instantiation is decided exactly for all lane values by byte provenance: every output lane must be the input lane (or zero) the definition names')
 
 
-REGISTRY = {'C05': c05, 'C01': c01, 'C02': c02, 'C03': c03, 'C07': c07, 'C08': c08, 'C09': c09}
+def c04(a):
+    return run('C04', 'proof', a, 'one obligation per (load/store form, element type, configuration): byte footprint through the pointer argument is exactly the register (no byte outside read/written, none skipped), lane i <-> element i, IR alignment assumption <= what the contract grants; gather/scatter: exactly n element accesses at base + index-lane-i * sizeof(T)')
+
+
+REGISTRY = {'C04': c04, 'C05': c05, 'C01': c01, 'C02': c02, 'C03': c03, 'C07': c07, 'C08': c08, 'C09': c09}
